@@ -206,7 +206,12 @@ class Run:
         bad, drift = [], []
         for (p, off), v in zip(files, res):
             bad += [dict(i=b["i"] + off, why=b["why"]) for b in v.get("bad", [])]
-            drift += [d + off for d in v.get("drift", [])]
+            for d in v.get("drift", []):
+                if isinstance(d, dict):
+                    d = dict(d); d["i"] += off
+                else:
+                    d += off
+                drift.append(d)
             os.remove(p)
         return dict(n=n, bad=bad, drift=drift)
 
@@ -222,9 +227,11 @@ class Run:
         self.cov["spec_drift"] += len(drift)
         if drift:
             self.cov.setdefault("spec_drift_examples", [])
-            lines = _lines(trace, set(drift[:3]))
-            for i in drift[:3]:
-                self.cov["spec_drift_examples"].append({"trace": label, "record": _clip(lines.get(i))})
+            idx = [(d["i"] if isinstance(d, dict) else d) for d in drift[:3]]
+            why = [(d.get("why") if isinstance(d, dict) else None) for d in drift[:3]]
+            lines = _lines(trace, set(idx))
+            for i, w in zip(idx, why):
+                self.cov["spec_drift_examples"].append({"trace": label, "why": w, "record": _clip(lines.get(i))})
         if not bad:
             return
         known = load_known(self.pid)
